@@ -120,6 +120,18 @@ def corpus(tier):
         for j in (1, 2, 3, 5):
             d = float(2 ** k + 2 ** (k - 52) * j)
             yield "literal", "", "v = %d.0; print v typeof(v); print v / 1000; w2 = v %% 1000; print w2;" % int(d)
+    # every built-in, operator, method and rank form of the C01 vocabulary (a spread of its argument tuples per form): whatever
+    # compiles must be saved in a form that compiles to the same thing
+    bytag = {}
+    for e, tag in c01.vocab_exprs("quick"):
+        if any(w in e for w in ("random", "readln", "read(", "input", "getenv", "getsys")):
+            continue
+        bytag.setdefault(tag, []).append(e)
+    per = 60 if tier == "thorough" else 24
+    for tag, exprs in sorted(bytag.items()):
+        step = max(1, len(exprs) // per)
+        for e in exprs[::step][:per]:
+            yield "vocab", c01.PRELUDE, "begin rr = %s; print rr; exception when others then print \"E\"; end; zz2 = 1;" % e
     for lit in LITERALS:
         yield "literal", "", "v = %s; print v; w2 = v; print typeof(v);" % lit
     for d in c03.dec_lattice(tier):
